@@ -316,7 +316,8 @@ def model_recipe(cls, depth=0, dates=True, objects=True, required_only=False):
         base = base.map(lambda d: dict(d, **({"@id": "https://ror.org/02nv7yv05"} if "@id" in d else {})))
     if EXTRAS[0] and getattr(cls.__config__, "extra", None) is Extra.allow and depth <= 1:
         return st.builds(lambda d, e: dict(d, **e), base,
-                         st.one_of(st.just({}), st.just({}), st.fixed_dictionaries({"xExtra": json_any})))
+                         st.one_of(st.just({}), st.just({}), st.fixed_dictionaries({"xExtra": json_any}),
+                                   st.fixed_dictionaries({"_comment": st.sampled_from(["keep me", "", 0])})))
     return base
 
 
